@@ -5,8 +5,12 @@ def stack_nontrivial(tok, res):
     # non-trivial: the real code split a write, made a grant wait, ran a half-tunnel or took a close / dispatch / sniff branch
     if tok[0] == "wr":
         return res.count(",") >= 1
-    if tok[0] in ("wrl", "srv", "cli", "disp", "wrap", "sniff", "wtok", "dl", "qclose"):
+    if tok[0] in ("wrl", "srv", "cli", "disp", "wrap", "sniff", "wtok", "dl", "qclose", "tail"):
         return True
+    if tok[0] == "rsrc":
+        return res.startswith("rd=") and "/" in res.split(";")[0]     # more than one Read: the source was really segmented
+    if tok[0] == "wsnk":
+        return res.startswith("c=") and ("/" in res or "!" in res)    # a split write or a failing sink
     if tok[0] == "wlim":
         return "/" in res or "sink" in res      # a write that was split under a finite limiter, or a failing sink
     if tok[0] == "rlim":
@@ -30,6 +34,15 @@ def stack_class(r):
         return "wrl " + ("rem0" if ";rem=0;" in r else "rem+")
     if r.startswith("pp="):
         return "pp=" + r[3:5] + ";" + ";".join(r.split(";")[1:])
+    if r.startswith("rd="):
+        f = r.split(";")
+        return "rsrc reads=%s %s tokens=%d stats=%d" % (min(f[0].count("/") + 1, 9), f[2], f[1] != "req=-", f[4] != "cnt=-")
+    if r.startswith("got=") and ";pre=" in r:
+        return "tail " + ";".join(r.split(";")[1:])
+    if r.startswith("c=") and ";cnt=" in r:
+        calls = r.split(";")[0][2:].split("|")
+        errs = sorted({c.split(":")[1] for c in calls if c.count(":") == 4})
+        return "wsnk calls=%d err=%s short=%d" % (len(calls), "+".join(errs), "!" in r)
     if r.startswith("c="):
         calls = r.split(";")[0][2:].split("|")
         errs = sorted({c.split(":")[1] for c in calls if c.count(":") == 3})
@@ -70,7 +83,10 @@ _T = ["mirror_proxy", "mirror_order", "mirror_visitor", "limiter_position", "sta
       "tunnel_up_prefix", "tunnel_up_complete", "toyEnc_lawful", "toyComp_lawful", "writer_chunks",
       "writer_chunk_bounds", "writer_tokens", "writer_requests_admissible", "reader_le", "writer_wait_never_refused",
       "writer_finite_complete", "writer_short_count", "writer_requests_cover", "writer_calls_concat", "reader_drain",
-      "wlim_model_holdsOn", "rlim_model_holdsOn", "bucket_bound",
+      "wlim_model_holdsOn", "rlim_model_holdsOn",
+      "reader_pair_unchanged", "reader_any_source", "reader_any_prefix", "reader_read_bounds", "reader_eof_with_data",
+      "stats_count_all", "reader_tail_uncharged", "writer_any_sink", "writer_calls_any_sink", "writer_lax_sink_witness",
+      "rsrc_model_holdsOn", "wsnk_model_holdsOn", "reader_charged_partial", "reader_charged_witness", "bucket_bound",
       "bucket_window_bound", "closeTop_idem", "closeCount_of_check", "closeTop_bare", "client_close",
       "server_close_fixed", "server_close_partial", "server_close_witness", "server_close_full_fails",
       "server_close_switch", "server_close_current", "http_close_fixed", "http_close_current", "visitor_close", "visitor_server_close",
@@ -100,7 +116,17 @@ PROP = {
                 "refilled after every sink write so that the tokens each WaitN took are read off the limiter): writes of 0..8 "
                 "bursts, alone and split over 1..4 calls, over a sink that fails after a generated number of bytes (returned n, "
                 "error class, sizes the sink saw, tokens per WaitN, accepted bytes = prefix), reads with buffers smaller and "
-                "larger than the burst over a source handing out segments, drained to EOF; real "
+                "larger than the burst over a source handing out segments, drained to EOF; the io.Reader / io.Writer CONTRACT "
+                "for every wrapper of the byte path (rsrc / wsnk): stacks of 1..3 of limit.Reader+Writer inside golib "
+                "ReadWriteCloser inside WrapReadWriteCloserConn (as frp builds it), StatsConn, CloseNotifyConn, ContextConn over a "
+                "SCRIPTED source — (n>0, EOF), (n>0, other error), the error on its own read, runs of (0, nil), 1-byte reads, "
+                "segments below / at / above buffer and burst — drained by an io.Copy-like caller (bytes and tokens of every Read, "
+                "final error class, bytes = what the source delivered incl. those that came with the error, StatsConn's count) and "
+                "over a SCRIPTED sink (full counts, short counts with error, full counts with error, short counts without error) "
+                "(count returned = bytes the sink took, error reported, sink holds a prefix); the real server / client half-tunnels "
+                "over a scripted WORK CONNECTION (tail): the wire bytes of 1 B..70 KB, cut in generated pieces (1 byte, (0, nil), "
+                "> 16 KiB, everything at once), end with EOF / another error together with the last piece or on a read of its own, all "
+                "enc x comp x limit x side: the user / backend gets everything, then end-of-stream; real "
                 "x/time/rate ReserveN with explicit times vs the bucket model, the Lean window bound evaluated on the real grant "
                 "times; real server/proxy TCP proxy (proxy.NewProxy+Run) with the harness as frpc decoding with real golib "
                 "layers in the order the MODEL predicts (all enc x comp x server-limit x echo/one-way), StartWorkConn name/src "
@@ -121,7 +147,9 @@ PROP = {
                 "by the Lean bucket bound; small limits (burst below the 16..32 KiB pieces Join copies, so every copy is split by "
                 "limit.Writer / truncated by limit.Reader) with 2..3.5 bursts of payload, six transfers at once, user->backend "
                 "with the user closing and backend->user with the BACKEND writing everything in one Write and closing: "
-                "complete, unchanged, EOF, receive trace within burst + rate x span; slow readers (a sleep after every read) that "
+                "complete, unchanged, EOF, receive trace within burst + rate x span; the same small-limit proxies with streams that "
+                "END after 1 byte .. a little more than one burst over the quic pair (twice: every enforcing side x limit in both "
+                "directions), the websocket pair and a tcp pair, and the several-burst transfers over quic; slow readers (a sleep after every read) that "
                 "stop reading for 0..3.5 s at a byte position or at the moment the writing side of the tunnel is done (backend "
                 "half-closed, frpc forwarded everything, closed and hung up), user or backend as the reader, 17 B..10 MiB: "
                 "complete stream, then EOF; proxy LIFE CYCLE on a dedicated pair: 13 tcpmux / https proxies (routeByHTTPUser "
@@ -162,11 +190,17 @@ PROP = {
             "the small-limit scenarios take (payload - burst) / limit <= 2.5 s each (six run simultaneously), bound checked with 400 ms "
             "x rate + 2 KiB slack, plus one snappy block (64 KiB) when compression is on: the limiter paces wire bytes, the "
             "decompressor releases whole blocks",
-            "limit.Writer's sink is modelled as a contract-abiding io.Writer (short count => error); rate.Limiter.WaitN with a "
+            "sources and sinks of the wrappers are scripts of (n, err) answers (Limit.Seg / SinkResp): every finite behaviour "
+            "the io.Reader contract allows and every contract-abiding io.Writer; a sink that returns a short count with a nil "
+            "error is outside (writer_lax_sink_witness: Write then skips bytes; compared with the model only); bytes that come "
+            "with an error are not charged to the limiter (reader_tail_uncharged, as in reader.go); "
+            "limit.Writer's sink in wlim is modelled as a contract-abiding io.Writer (short count => error); rate.Limiter.WaitN with a "
             "background context is modelled as: error iff n > burst on a finite limiter (x/time/rate v0.5.0 Limiter.wait)",
             "DEFECTS on this tree (model faithful, witnesses proved, reproduced on the real code, recorded as known): "
             "server-side limiter close closure (server_close_witness / join_stuck_witness), CloseNotifyConn.Close "
-            "(closeNotify_witness), tcpmux early data (tcpmux_early_data_witness); repaired models behind "
+            "(closeNotify_witness), tcpmux early data (tcpmux_early_data_witness), limit.Reader hands on the bytes that come "
+            "with an error without charging them — over quic the last read of every stream, up to one burst (reader_charged_witness; "
+            "known; the small-limit e2e bound over the quic pair allows one more burst for it); repaired models behind "
             "CloseGraph.limiterCloseIsFixed / closeNotifyIsFixed with server_close_fixed / closeNotify_fixed",
         ],
     }
@@ -190,7 +224,14 @@ META = {
                 "bytes, tokens = bytes; with WaitN's refusal of n > burst and a failing sink in the model: no WaitN of Write is ever "
                 "refused, Write returns (len, nil) whenever the sink has room and (bytes the sink took, error) otherwise with the "
                 "accepted bytes a prefix, any split over calls concatenates, and a drain through limit.Reader with any buffer size "
-                "returns the stream unchanged with every request = bytes returned <= burst; any run of grants of any limiter history is at most burst + rate x span; closing the top "
+                "returns the stream unchanged with every request = bytes returned <= burst; FOR ALL SOURCES (scripts of (n, err) "
+                "pairs: data together with EOF or another error, (0, nil), any segmentation) and all stacks of limit.Reader / "
+                "StatsConn / pass-through wrappers the (n, err) pair reaches the caller unchanged, a drain yields exactly the "
+                "bytes the source delivers up to and including those that come with its final error, then that error, "
+                "StatsConn counts them all; for all contract-abiding sinks Write returns exactly the bytes the sink took, an "
+                "error whenever the sink reported one, and the sink holds a prefix; every byte is charged to the limiter when errors "
+                "come on a read of their own, REFUTED for bytes that come with the error (defect: a quic stream's last read passes "
+                "for free); any run of grants of any limiter history is at most burst + rate x span; closing the top "
                 "of frpc's stack closes the work connection exactly once for every combination; for frps' stack this is proved "
                 "without a server-side limit and REFUTED with one (defect: the limiter's close closure captures the reassigned "
                 "variable; user close never reaches the backend) with the repaired closure proved for all combinations; "
@@ -205,6 +246,6 @@ META = {
                 "has its own.",
         "note": "Trusted: Lean kernel; hand-written models; harness. Assumed: golib crypto/snappy lawful, x/time/rate, yamux/TLS/TCP. "
                 "Known findings reproduced on every run: C01-server-limiter-close, C01-closenotify-self-close, "
-                "C01-tcpmux-early-data. Not covered: kcp, xtcp fallback, vhost port shared with the control port (quic / websocket: one e2e pair each); "
+                "C01-tcpmux-early-data, C01-limit-reader-uncharged-tail. Not covered: kcp, xtcp fallback, vhost port shared with the control port (quic / websocket: one e2e pair each); "
                 "tcpmux / https proxy groups and http-type proxies in the life-cycle op (C06 / C10 / C13 cover their routing).",
     }
